@@ -214,6 +214,29 @@ fn check_last_word(sim: &mut Sim, final_: bool) {
             continue;
         }
         let (user, file) = current_words(sim, doc);
+        if prop == "C07" && !(user.is_empty() && file.is_empty()) {
+            // direct reading of "an added word is no longer reported as misspelt": not even the
+            // reference (a fresh linter with the model's dictionaries) may flag it
+            if let Reference::Lints(r) = reference::lints_for(&doc.text, &doc.lang, &settings, &user, &file) {
+                for l in r.lints.iter().filter(|l| l.lint_kind.is_spelling()) {
+                    let flagged: String = r.source[l.span.start..l.span.end.min(r.source.len())].iter().collect();
+                    if user.contains(&flagged) || file.contains(&flagged) {
+                        let lower = |w: &str| w.to_lowercase().replace(['’', '‘'], "'");
+                        let all: Vec<&String> = user.iter().chain(file.iter()).collect();
+                        let variant = all.iter().any(|a| **a != flagged && lower(a) == lower(&flagged));
+                        sim.res.violate(Violation {
+                            property: "C07".into(),
+                            oracle: "C07.added_word_not_misspelt".into(),
+                            class: if variant { "case_variant_replaced".into() } else { "added_word_still_flagged".into() },
+                            detail: format!("{} ({}): '{}' is in the dictionaries the user built ({:?} / {:?}) and is reported as misspelt all the same, even by a fresh linter", doc.uri, doc.lang, flagged, user, file),
+                            facts: json!({"class": if variant { "case_variant_replaced" } else { "added_word_still_flagged" }}),
+                        });
+                        break;
+                    }
+                }
+            }
+            sim.res.count("c07_added_words_direct_checks", 1);
+        }
         let expected_raw = ref_diags(sim, &doc.text, &doc.lang, &settings, &user, &file).unwrap_or_default();
         let expected = strip_ignorable(sim, doc, &expected_raw);
         let observed = strip_ignorable(sim, doc, &observed_raw);
@@ -228,6 +251,64 @@ fn check_last_word(sim: &mut Sim, final_: bool) {
         let mut class = "other".to_string();
         let mut why = String::new();
         let n = doc.history.len();
+        if prop == "C07" {
+            // case variants among the added words: the dictionary keeps only the latest variant
+            let lower = |w: &str| w.to_lowercase().replace('’', "'");
+            let all: Vec<&String> = user.iter().chain(file.iter()).collect();
+            let has_variants = all.iter().any(|a| all.iter().any(|b| a != b && lower(a) == lower(b)));
+            if has_variants {
+                let disk_user = read_words(&user_dict_path(&settings)).unwrap_or_default();
+                let disk_file = read_words(&file_dict_path(&settings, &doc.path)).unwrap_or_default();
+                let r = ref_diags(sim, &doc.text, &doc.lang, &settings, &disk_user, &disk_file).unwrap_or_default();
+                if strip_ignorable(sim, doc, &r) == observed {
+                    class = "case_variant_replaced".into();
+                    why = "they are the diagnostics under the dictionary files as saved, in which a word that differs from a later added word only in letter case has been replaced by it".into();
+                }
+            }
+        }
+        if class == "other" && prop != "C07" {
+            // the file on disk that holds this document's dictionary was changed through a command
+            // that named *another* document (file-dictionary name collision)
+            let my_path = file_dict_path(&settings, &doc.path);
+            let foreign: Vec<String> = sim
+                .client
+                .added
+                .iter()
+                .filter(|a| {
+                    a.file.as_deref().map(|u| u != doc.uri).unwrap_or(false)
+                        && a.file.as_deref().and_then(|u| sim.client.doc(u)).map(|d| file_dict_path(&settings, &d.path) == my_path).unwrap_or(false)
+                })
+                .map(|a| a.word.clone())
+                .collect();
+            if !foreign.is_empty() {
+                let f2: Vec<String> = file.iter().filter(|w| !foreign.contains(w)).cloned().collect();
+                let r = ref_diags(sim, &doc.text, &doc.lang, &settings, &user, &f2).unwrap_or_default();
+                if strip_ignorable(sim, doc, &r) == observed {
+                    class = "file_dict_name_collision".into();
+                    why = format!("they are the diagnostics from before words were added, through a command naming another file, to the dictionary file {my_path} that both files share");
+                }
+            }
+        }
+        if class == "other" && prop == "C07" {
+            // words of another document's file dictionary that is stored under the same file name
+            let my_path = file_dict_path(&settings, &doc.path);
+            let foreign: Vec<String> = sim
+                .oracle_state
+                .dict_model
+                .iter()
+                .filter(|(k, _)| k.starts_with("file|") && key_path(k) == my_path && !k.starts_with(&format!("file|{}|", doc.uri)))
+                .flat_map(|(_, ws)| ws.iter().map(|(w, _)| w.clone()))
+                .collect();
+            if !foreign.is_empty() {
+                let mut f2 = file.clone();
+                f2.extend(foreign);
+                let r = ref_diags(sim, &doc.text, &doc.lang, &settings, &user, &f2).unwrap_or_default();
+                if strip_ignorable(sim, doc, &r) == observed {
+                    class = "file_dict_name_collision".into();
+                    why = format!("they are the diagnostics under this file's dictionary plus the words added to another file's dictionary, both of which are stored as {my_path}");
+                }
+            }
+        }
         if class == "other" {
             if let Some(disk) = &doc.disk {
                 if *disk != doc.text {
@@ -283,49 +364,6 @@ fn check_last_word(sim: &mut Sim, final_: bool) {
                     class = "stale_config".into();
                     why = "they are the diagnostics under an older configuration".into();
                     break;
-                }
-            }
-        }
-        if class == "other" && prop != "C07" {
-            // the file on disk that holds this document's dictionary was changed through a command
-            // that named *another* document (file-dictionary name collision)
-            let my_path = file_dict_path(&settings, &doc.path);
-            let foreign: Vec<String> = sim
-                .client
-                .added
-                .iter()
-                .filter(|a| {
-                    a.file.as_deref().map(|u| u != doc.uri).unwrap_or(false)
-                        && a.file.as_deref().and_then(|u| sim.client.doc(u)).map(|d| file_dict_path(&settings, &d.path) == my_path).unwrap_or(false)
-                })
-                .map(|a| a.word.clone())
-                .collect();
-            if !foreign.is_empty() {
-                let f2: Vec<String> = file.iter().filter(|w| !foreign.contains(w)).cloned().collect();
-                let r = ref_diags(sim, &doc.text, &doc.lang, &settings, &user, &f2).unwrap_or_default();
-                if strip_ignorable(sim, doc, &r) == observed {
-                    class = "file_dict_name_collision".into();
-                    why = format!("they are the diagnostics from before words were added, through a command naming another file, to the dictionary file {my_path} that both files share");
-                }
-            }
-        }
-        if class == "other" && prop == "C07" {
-            // words of another document's file dictionary that is stored under the same file name
-            let my_path = file_dict_path(&settings, &doc.path);
-            let foreign: Vec<String> = sim
-                .oracle_state
-                .dict_model
-                .iter()
-                .filter(|(k, _)| k.starts_with("file|") && key_path(k) == my_path && !k.starts_with(&format!("file|{}|", doc.uri)))
-                .flat_map(|(_, ws)| ws.iter().map(|(w, _)| w.clone()))
-                .collect();
-            if !foreign.is_empty() {
-                let mut f2 = file.clone();
-                f2.extend(foreign);
-                let r = ref_diags(sim, &doc.text, &doc.lang, &settings, &user, &f2).unwrap_or_default();
-                if strip_ignorable(sim, doc, &r) == observed {
-                    class = "file_dict_name_collision".into();
-                    why = format!("they are the diagnostics under this file's dictionary plus the words added to another file's dictionary, both of which are stored as {my_path}");
                 }
             }
         }
@@ -561,20 +599,19 @@ fn check_dict_files(sim: &mut Sim, when: &str) {
         if lost.is_empty() && alien.is_empty() {
             continue;
         }
-        // classify
+        // classify: which part of the difference do the two known mechanisms explain?
         let lower = |w: &str| w.to_lowercase().replace('’', "'");
-        let case_variant = !lost.is_empty() && alien.is_empty() && lost.iter().all(|l| s.iter().any(|k| k != *l && lower(k) == lower(l)));
-        let fragment = alien.iter().any(|a| acked.iter().chain(inflight.iter()).any(|w| w != *a && w.starts_with(a.as_str())));
-        let collision = !alien.is_empty() && alien.iter().all(|a| foreign.contains(*a)) && lost.is_empty();
-        let class = if collision {
-            "file_dict_name_collision"
-        } else if case_variant {
-            "case_variant_replaced"
-        } else if !lost.is_empty() && when.starts_with("after crash") {
+        let foreign_involved = alien.iter().any(|a| foreign.contains(*a));
+        let alien_unexplained: Vec<&&String> = alien.iter().filter(|a| !foreign.contains(**a)).collect();
+        let lost_unexplained: Vec<&&String> = lost.iter().filter(|l| !s.iter().any(|k| k != **l && lower(k) == lower(l))).collect();
+        let fragment = alien_unexplained.iter().any(|a| acked.iter().chain(inflight.iter()).any(|w| w != **a && w.starts_with(a.as_str())));
+        let class = if alien_unexplained.is_empty() && lost_unexplained.is_empty() {
+            if foreign_involved { "file_dict_name_collision" } else { "case_variant_replaced" }
+        } else if !lost_unexplained.is_empty() && when.starts_with("after crash") {
             "lost_by_crash"
         } else if fragment {
             "word_fragment"
-        } else if !lost.is_empty() {
+        } else if !lost_unexplained.is_empty() {
             "word_lost"
         } else {
             "alien_word"
